@@ -87,6 +87,11 @@ class EvalContext(metaclass=NamespaceableMeta):
 
         self._require_all_safe = False
         self._eval_stack = []
+        # bookkeeping needed to honour "require_all_safe" for values which are taken from the caches:
+        # ids of nodes / paths whose (already finished) evaluation involved at least one unsafe node
+        self._eval_unsafe_id = set()
+        self._eval_unsafe_path = set()
+        self._safety_stack = []
 
         self.user_data = None
 
@@ -115,9 +120,21 @@ class EvalContext(metaclass=NamespaceableMeta):
         finally:
             self._require_all_safe = old
 
+    def _note_unsafe_dependency(self, cfgobj, path):
+        ''' Should be called whenever an unsafe node is used - evaluated, or evaluated earlier and now taken from a cache -
+            to raise an error if the current context requires all nodes to be safe and otherwise remember that
+            the values of all nodes which are being evaluated at the moment depend on unsafe content.
+        '''
+        if self._require_all_safe:
+            raise errors.UnsafeError(f'Note: the current context requires all evaluated nodes to be safe - see chained exceptions for more information', cfgobj, str(path))
+        for frame in self._safety_stack:
+            frame[0] = False
+
     def get_node(self, *path, **kwargs):
         path = NodePath.get_list_path(*path)
         if str(path) in self._eval_cache:
+            if str(path) in self._eval_unsafe_path:
+                self._note_unsafe_dependency(None, path)
             return self._eval_cache[str(path)]
         return self.cfg.ayns.get_node(path, **kwargs)
 
@@ -129,11 +146,12 @@ class EvalContext(metaclass=NamespaceableMeta):
         self._eval_stack.append(prefix)
         prefix = NodePath.get_list_path(prefix, check_types=False) or NodePath()
 
-        if self._require_all_safe:
-            if not cfgobj.ayns.safe:
-                raise errors.UnsafeError(f'Note: the current context requires all evaluated nodes to be safe - see chained exceptions for more information', cfgobj, str(prefix))
+        if not cfgobj.ayns.safe:
+            self._note_unsafe_dependency(cfgobj, prefix)
 
         if id(cfgobj) in self._eval_cache_id:
+            if id(cfgobj) in self._eval_unsafe_id:
+                self._note_unsafe_dependency(cfgobj, prefix)
             return self._eval_cache_id[id(cfgobj)]
 
         evaluated_parent = None
@@ -145,12 +163,21 @@ class EvalContext(metaclass=NamespaceableMeta):
 
             evaluated_parent = enode
 
-        evaluated_cfgobj = cfgobj.ayns.on_evaluate(prefix, self)
+        all_safe = [cfgobj.ayns.safe]
+        self._safety_stack.append(all_safe)
+        try:
+            evaluated_cfgobj = cfgobj.ayns.on_evaluate(prefix, self)
+        finally:
+            self._safety_stack.pop()
+
         if evaluated_parent is not None:
             evaluated_parent[prefix[-1]] = evaluated_cfgobj
 
         self._eval_cache[str(prefix)] = evaluated_cfgobj
         self._eval_cache_id[utils.persistent_id(cfgobj)] = evaluated_cfgobj
+        if not all_safe[0]:
+            self._eval_unsafe_path.add(str(prefix))
+            self._eval_unsafe_id.add(id(cfgobj))
         self._eval_stack.pop()
         return evaluated_cfgobj
 
@@ -167,6 +194,8 @@ class EvalContext(metaclass=NamespaceableMeta):
         self._ecfg = EvalContext.PartialChild(NodePath(), self, self._cfg)
         self._eval_cache.clear()
         self._eval_cache_id.clear()
+        self._eval_unsafe_id.clear()
+        self._eval_unsafe_path.clear()
         self.user_data = Bunch()
 
         try:
@@ -174,6 +203,8 @@ class EvalContext(metaclass=NamespaceableMeta):
         finally:
             self._eval_cache.clear()
             self._eval_cache_id.clear()
+            self._eval_unsafe_id.clear()
+            self._eval_unsafe_path.clear()
             self._cfg = None
             self._ecfg = None
 
